@@ -203,33 +203,61 @@ def run_adhist(tape, out):
         scales = []
         shapes = []
         for r in range(rounds):
-            # update_distance starts a new round itself; an explicit init is optional
-            if tape.chance('explicit_init', 1, 2):
-                node.init_adaptation_round()
-            n_rows = tape.int('rows', 4, 40)
-            # the gain multiplies location and spread alike (|mean|/std stays moderate, so the
-            # running-variance recurrence is well conditioned; tiny and huge scales are legal)
-            data = [spec['gains'][j] * rs.normal(loc=j, scale=0.5 + j,
-                                                 size=(n_rows,) + ((w,) if w > 1 else ()))
-                    for j, w in enumerate(widths)]
-            # partition into add_data calls
-            cuts = [0]
-            while cuts[-1] < n_rows:
-                step = tape.choice('chunk', [1, 2, 3, 5, 8, n_rows])
-                cuts.append(min(n_rows, cuts[-1] + step))
-            sizes = [b - a for a, b in zip(cuts, cuts[1:])]
-            shapes.append(tuple(sizes))
-            for a, b in zip(cuts, cuts[1:]):
-                node.add_data(*[d_[a:b] for d_ in data])
-            full = np.column_stack(data)
-            exp_scale = full.std(axis=0)
-            got_scale = np.asarray(node.state['scale'])
-            if got_scale.shape != exp_scale.shape or \
-                    not np.allclose(got_scale, exp_scale, rtol=1e-10, atol=0):
-                out.violate('scale', '', round=r, partition=sizes, got=got_scale.tolist(),
-                            expected=exp_scale.tolist())
-                return
-            node.update_distance()
+            if tape.chance('sampler_round', 1, 5):
+                # this round is done by an adaptive Rejection run on the same node (the sampler
+                # adds the data and updates the distance itself); rounds done by hand before
+                # and after it are rounds of their own
+                bs = tape.int('sampler_bs', 1, 8)
+                n = tape.int('sampler_n', 1, 6)
+                wl = {'method': 'rejection', 'batch_size': bs,
+                      'seed': tape.int('sampler_seed', 0, 2 ** 20), 'n_samples': n,
+                      'output_names': [],
+                      'objective': {'n_sim': max(2, n + tape.int('sampler_extra', 1, 20))}}
+                run_ = sr.SamplerRun(tape, out, spec, wl, sr.REFERENCE_SCHED, model=model,
+                                     quiet=True)
+                res = run_.sample(wl['n_samples'], **wl['objective'])
+                if res is None:
+                    if not out.inconclusive and run_.errors:
+                        e = run_.errors[-1]
+                        out.violate('newest-distance', 'run-raises-' + type(e).__name__,
+                                    method='rejection', batch_size=bs, error=str(e)[:200])
+                    return
+                rows = np.vstack([np.column_stack([np.asarray(b[s_]) for s_ in spec['sums']])
+                                  for (_, _, b) in run_.consumed])
+                exp_scale = rows.std(axis=0)
+                if np.any(exp_scale == 0):
+                    out.inconclusive = True
+                    return
+                shapes.append(('sampler', len(rows)))
+                out.probes['sampler_round_between_hand_rounds'] += 1
+            else:
+                # update_distance starts a new round itself; an explicit init is optional
+                if tape.chance('explicit_init', 1, 2):
+                    node.init_adaptation_round()
+                n_rows = tape.int('rows', 4, 40)
+                # the gain multiplies location and spread alike (|mean|/std stays moderate, so the
+                # running-variance recurrence is well conditioned; tiny and huge scales are legal)
+                data = [spec['gains'][j] * rs.normal(loc=j, scale=0.5 + j,
+                                                     size=(n_rows,) + ((w,) if w > 1 else ()))
+                        for j, w in enumerate(widths)]
+                # partition into add_data calls
+                cuts = [0]
+                while cuts[-1] < n_rows:
+                    step = tape.choice('chunk', [1, 2, 3, 5, 8, n_rows])
+                    cuts.append(min(n_rows, cuts[-1] + step))
+                sizes = [b - a for a, b in zip(cuts, cuts[1:])]
+                shapes.append(tuple(sizes))
+                for a, b in zip(cuts, cuts[1:]):
+                    node.add_data(*[d_[a:b] for d_ in data])
+                full = np.column_stack(data)
+                exp_scale = full.std(axis=0)
+                got_scale = np.asarray(node.state['scale'])
+                if got_scale.shape != exp_scale.shape or \
+                        not np.allclose(got_scale, exp_scale, rtol=1e-10, atol=0):
+                    out.violate('scale', '', round=r, partition=sizes, got=got_scale.tolist(),
+                                expected=exp_scale.tolist())
+                    return
+                node.update_distance()
             scales.append(exp_scale)
             cols = np.asarray(node.generate(probe_n, with_values=probe))
             if cols.shape != (probe_n, r + 2):
